@@ -140,7 +140,7 @@ def all_families(plan, own=()):
         "quick": [("MC_Own", "Beh_Own_q.cfg", fam_own.convert, 250), ("MC_Conv", "Beh_Conv_t.cfg", fam_conv.convert, 300),
                   ("MC_Fin", "Beh_Fin_t.cfg", fam_fin.convert, 200), ("MC_Faults", "Beh_Faults_q.cfg", fam_faults.convert, 0),
                   ("MC_Dec", "Beh_Dec_q.cfg", fam_dec.convert, 150), ("MC_Status", "Beh_Status_q.cfg", fam_status.convert, 100),
-                  ("MC_Rolling", "Beh_Rolling_q.cfg", fam_roll.convert, 40), ("RollFin", "Beh_RollFin.cfg", fam_rollfin.convert, 0),
+                  ("MC_Rolling", "Beh_Rolling_q.cfg", fam_roll.convert, 120), ("RollFin", "Beh_RollFin.cfg", fam_rollfin.convert, 0),
                   ("MC_Requeue", "Beh_Requeue.cfg", fam_requeue.convert, 60), ("MC_MultiKind", "Beh_MultiKind.cfg", fam_multikind.convert, 60)],
         "thorough": [("MC_Own", "Beh_Own_t.cfg", fam_own.convert, 3000), ("MC_Conv", "Beh_Conv_t.cfg", fam_conv.convert, 3000),
                      ("MC_Fin", "Beh_Fin_t6.cfg", fam_fin.convert, 2000), ("MC_Faults", "Beh_Faults_q.cfg", fam_faults.convert, 0),
